@@ -8,6 +8,7 @@ from warnings import warn
 
 from numpy import floating, integer, isfinite, isnan, nan, select
 from pandas import DataFrame, Series, isna, notna, unique
+from pandas.api.types import is_extension_array_dtype, is_numeric_dtype
 from sklearn.base import BaseEstimator, TransformerMixin
 
 from .grouped_list import GroupedList
@@ -829,6 +830,10 @@ def transform_quantitative_feature(
 
     # feature's labels associated to each quantile
     feature_values = values_orders[feature]
+
+    # nullable extension dtypes (Int64, Float64...) as numpy floats (pandas.NA as numpy.nan)
+    if is_extension_array_dtype(df_feature.dtype) and is_numeric_dtype(df_feature.dtype):
+        df_feature = df_feature.astype(float)
 
     # keeping track of nans
     nans = isna(df_feature)
